@@ -39,7 +39,11 @@ Complex::Complex(Type::TypeMinor type_id, void * handle)
   DBG(DBG_DEBUG, "%s line %d\n", __PRETTY_FUNCTION__, __LINE__);
 #endif
   assert(_instance);
+#ifdef BLOC_VERIF
+  _refcount = new verif_atomic_int(1);
+#else
   _refcount = new std::atomic<int>(1);
+#endif
 }
 
 Complex * Complex::newInstance(
@@ -130,7 +134,11 @@ void Complex::swap(Complex& c) noexcept
 #ifdef DEBUG_COMPLEX
   DBG(DBG_DEBUG, "%s line %d\n", __PRETTY_FUNCTION__, __LINE__);
 #endif
+#ifdef BLOC_VERIF
+  verif_atomic_int * tmp_ref = _refcount;
+#else
   std::atomic<int> * tmp_ref = _refcount;
+#endif
   void * tmp_ptr = _instance;
   Type tmp_typ = _type;
   _refcount = c._refcount;
